@@ -44,7 +44,7 @@ function validate (job, resp, prefix) {
 module.exports = {
   id: 'C02',
   level: 'translation_validation',
-  rule: 'each accepted, modified input is re-parsed (input and raw output) with acorn 8.16; the eraser undoes exactly the shapes the property enumerates (prologue, injected let, temp sequences, hook calls, .call re-dispatch, spread materialisation, optional-chain guards, arrow-body blocks) and the result must equal the input tree exactly, modulo parentheses, literal spelling, x=>E == x=>{return E}, T+=E == T=T+E for a simple T, L.m.call(L,..) == L.m(..) for a literal L. distinct_nontrivial = distinct inputs with >= 1 erased hook site.',
+  rule: 'each accepted, modified input is re-parsed (input and raw output) with acorn 8.16; the eraser undoes exactly the shapes the property enumerates (prologue, injected let, temp sequences, hook calls, .call re-dispatch, spread materialisation, optional-chain guards, arrow-body blocks) and the result must equal the input tree exactly, modulo parentheses, literal spelling, x=>E == x=>{return E}, T+=E == T=T+E for a simple T, L.m.call(L,..) == L.m(..) for a literal L. distinct_nontrivial = distinct inputs with >= 1 erased hook site. Workload additions: corpus files with enabled operations spliced onto randomly chosen expression nodes (25 wrappers x every expression slot; only texts V8 still compiles), the syntax zoo with LF/CRLF/CR line endings, a CRLF slice of the corpus.',
   assumptions: [
     'acorn 8.16 (ES2025) is the independent parser; inputs it rejects are skipped and counted',
     'comments are not compared (C10 covers comment handling)',
